@@ -13,7 +13,7 @@ META = {
     'required_obs': {'quick': ['cmp-dict', 'cmp-struct', 'cmp-hdf5', 'cmp-inline-window', 'window-dict', 'window-struct',
                                'window-hdf5', 'window-inline', 'permuted', 'extra-datasets', 'mapping', 'open-ended',
                                'frames-decoded', 'fastpath-permuted', 'fastpath-aligned', 'fastpath-view', 'fastpath-packed', 'same-data-object-reused',
-                               'repeated-channel-names', 'repeated-channel-names-across-sets']},
+                               'repeated-channel-names', 'repeated-channel-names-across-sets', 'paths-as-Path']},
     'exhaustive_windows': {'quick': ['all windows 0 <= from < to <= N for N = 4, every source kind'],
                            'thorough': ['all windows 0 <= from < to <= N for N in 1..6, every source kind x input chunk {None,1,2}']},
     'assumptions': ['origins carry explicit file_set_number and creation_time so that nothing random enters the bytes'],
@@ -210,6 +210,11 @@ def run_case(case):
             extra = r.choice([0, 0, 2])
             sp['write'].update({'source': src, 'perm_seed': perm, 'extra': extra,
                                 'input_chunk_size': r.choice(gen.chunk_choices(N))})
+            if r.random() < 0.3:
+                # file names (output, HDF5 source) given as pathlib.Path objects, other spellings of the HDF5 extension
+                sp['write']['paths_as'] = 'Path'
+                sp['write']['h5name'] = r.choice(['data.h5', 'data.hdf5', 'DATA.H5', 'my.data.HDF5'])
+                bump('paths-as-Path')
             if perm is not None:
                 bump('permuted')
             if extra:
